@@ -714,18 +714,10 @@ theorem frame_purge : Frame (fun m => isHash m = true) (fun _ => True) (purge (Ï
   refine frame_ite _ (fun hc => ?_) (fun _ => frame_pure _ trivial)
   exact frame_weaken (frame_remove af) (fun m hm => by rw [hm]; exact hc) (fun _ _ => trivial)
 
-theorem frame_purgeE : Frame (fun m => isHash m = true) (fun _ => True) (purgeE (Ïƒ := ATab V)) := by
-  unfold purgeE
-  refine frame_bind (P := fun _ => True) frame_names (fun l _ => ?_)
-  refine frame_forEach _ (fun af _ => ?_)
-  refine frame_ite _ (fun _ => frame_throw _) (fun _ => ?_)
-  refine frame_ite _ (fun hc => ?_) (fun _ => frame_pure _ trivial)
-  exact frame_weaken (frame_remove af) (fun m hm => by rw [hm]; exact hc) (fun _ _ => trivial)
-
 theorem frame_operateStr (o : Ops V) (rpn : List String) :
     Frame (exprT rpn) (fun _ => True) (operateStr (Ïƒ := ATab V) o rpn) := by
   unfold operateStr
-  exact frame_tryFinally (frame_evaluate o rpn) (frame_weaken frame_purgeE (fun m hm => Or.inr hm) (fun _ _ => trivial))
+  exact frame_tryFinally (frame_evaluate o rpn) (frame_weaken frame_purge (fun m hm => Or.inr hm) (fun _ _ => trivial))
 
 /-- the names one API call may touch -/
 def touched : Op V â†’ String â†’ Prop
